@@ -104,6 +104,7 @@ func (b *bb) scenarioPrio2() {
 		return
 	}
 	var produced sync.WaitGroup
+	var finished int64
 	for _, p := range c.prios {
 		produced.Add(1)
 		go func(p uint) {
@@ -114,6 +115,7 @@ func (b *bb) scenarioPrio2() {
 					time.Sleep(time.Duration(50) * time.Microsecond)
 				}
 			}
+			atomic.AddInt64(&finished, 1) // before the close: happens-before anything that observes it
 			close(chans[p])
 		}(p)
 	}
@@ -121,8 +123,6 @@ func (b *bb) scenarioPrio2() {
 	var mu sync.Mutex
 	var got []delivery
 	var handlers sync.WaitGroup
-	allClosed := make(chan struct{})
-	go func() { produced.Wait(); close(allClosed) }()
 	relCh := make(chan uint, 1024)
 	// the single reader records the sequence; releases are issued from other goroutines
 	handlers.Add(1)
@@ -171,9 +171,7 @@ func (b *bb) scenarioPrio2() {
 		return
 	}
 	// C07: output closed => all inputs closed and drained, all released, err nil
-	select {
-	case <-allClosed:
-	default:
+	if int(atomic.LoadInt64(&finished)) != len(c.prios) {
 		b.fail("C07 prio2: output closed although a producer has not finished (%s)", c)
 	}
 	if e, ok := <-dsc.Err(); ok && e != nil {
@@ -253,7 +251,7 @@ func (b *bb) scenarioSimple2() {
 func (b *bb) scenarioPrio1() {
 	before := b.fails()
 	c := b.randPrioCfg()
-	mode := []string{"graceful", "stop", "cancel", "stop-busy", "graceful+stop", "graceful+cancel"}[b.r.Intn(6)]
+	mode := []string{"graceful", "stop", "cancel", "stop-busy", "graceful+stop", "graceful+cancel"}[b.cycle("prio1", 6)]
 	inputs := map[uint]<-chan int{}
 	chans := map[uint]chan int{}
 	for _, p := range c.prios {
@@ -416,7 +414,7 @@ func (b *bb) scenarioPrio1() {
 func (b *bb) scenarioSimple1() {
 	before := b.fails()
 	c := b.randPrioCfg()
-	mode := []string{"graceful", "stop", "cancel", "stop-busy", "graceful+cancel", "graceful+stop", "graceful+cancel-hooked"}[b.r.Intn(7)]
+	mode := []string{"graceful+cancel-hooked", "graceful+cancel", "graceful+stop", "stop-busy", "graceful", "stop", "cancel"}[b.cycle("simple1", 7)]
 	inputs := map[uint]<-chan int{}
 	chans := map[uint]chan int{}
 	total := 0
@@ -675,7 +673,7 @@ func (h *hookCtx) Done() <-chan struct{} {
 func (b *bb) scenarioFaulty() {
 	before := b.fails()
 	c := b.randPrioCfg()
-	v1 := b.r.Intn(2) == 0
+	v1 := b.cycle("faulty", 2) == 0
 	after := int32(3 + b.r.Intn(12))
 	var calls int32
 	kind := []string{"over", "under"}[b.r.Intn(2)] // an all-zero result is exempt (C15: "non-zero added total")
@@ -831,4 +829,167 @@ func (b *bb) scenarioFaulty() {
 		b.leakProbe("divider error of v1 priority")
 	}
 	b.note("faulty", desc, before)
+}
+
+// C06: nothing is in flight and one priority alone has data, all of it available up-front
+// (a buffered input filled before the discipline is created): min(k, HandlersQuantity) items
+// are delivered without any release being needed - the priority is granted all handlers -
+// and the rest follows as the handlers release.  (Data that trickles in while the priority
+// already holds its share may legitimately wait for a release: the property does not promise
+// more, and neither does the code.)
+func (b *bb) scenarioAlone() {
+	before := b.fails()
+	c := b.randPrioCfg()
+	v1 := b.cycle("alone", 2) == 0
+	P := c.prios[b.r.Intn(len(c.prios))]
+	desc := fmt.Sprintf("v1=%v alone=%d %s", v1, P, c)
+	chans := map[uint]chan int{}
+	inputs := map[uint]<-chan int{}
+	k := 1 + b.r.Intn(int(c.H)+3)
+	for _, p := range c.prios {
+		n := c.caps[p]
+		if p == P {
+			n = k
+		}
+		ch := make(chan int, n)
+		chans[p], inputs[p] = ch, ch
+	}
+	for i := 0; i < k; i++ {
+		chans[P] <- int(P)*100000 + i
+	}
+	var delivered int64
+	var release func()
+	var finish func()
+	held := make(chan uint, 4096)
+	if !v1 {
+		dv := divider.Rate
+		if c.fair {
+			dv = divider.Fair
+		}
+		dsc, err := p2.New(p2.Opts[int]{Divider: dv, HandlersQuantity: c.H, Inputs: inputs})
+		if err != nil {
+			b.fail("C18 configuration judged non-fatal was rejected by New: %v (%s)", err, desc)
+			return
+		}
+		go func() {
+			for it := range dsc.Output() {
+				if it.Priority != P {
+					b.fail("C02 alone: an item tagged %d was delivered, only priority %d was written to (%s)", it.Priority, P, desc)
+				}
+				held <- it.Priority
+				atomic.AddInt64(&delivered, 1)
+			}
+		}()
+		release = func() { go dsc.Release(<-held) }
+		finish = func() {
+			for len(held) > 0 {
+				release()
+			}
+			for _, p := range c.prios {
+				close(chans[p])
+			}
+			select {
+			case <-dsc.Err():
+			case <-time.After(10 * time.Second):
+				b.fail("C07 alone: v2 did not terminate within 10s after every input was closed and every item released (%s)", desc)
+			}
+			// items delivered during the shutdown are released too
+			deadline := time.Now().Add(2 * time.Second)
+			for len(held) > 0 && time.Now().Before(deadline) {
+				release()
+				time.Sleep(time.Millisecond)
+			}
+		}
+	} else {
+		dv := p1.RateDivider
+		if c.fair {
+			dv = p1.FairDivider
+		}
+		output := make(chan p1.Prioritized[int], b.r.Intn(2))
+		feedback := make(chan uint, b.r.Intn(2))
+		ctx, cancel := context.WithCancel(context.Background())
+		dsc, err := p1.New(p1.Opts[int]{Ctx: ctx, Divider: dv, Feedback: feedback, HandlersQuantity: c.H, Inputs: inputs, Output: output})
+		if err != nil {
+			cancel()
+			b.fail("C16 v1 New failed: %v", err)
+			return
+		}
+		stop := make(chan struct{})
+		go func() {
+			for {
+				select {
+				case it := <-output:
+					if it.Priority != P {
+						b.fail("C02 alone: an item tagged %d was delivered, only priority %d was written to (%s)", it.Priority, P, desc)
+					}
+					held <- it.Priority
+					atomic.AddInt64(&delivered, 1)
+				case <-stop:
+					return
+				}
+			}
+		}()
+		release = func() {
+			p := <-held
+			go func() {
+				select {
+				case feedback <- p:
+				case <-stop:
+				}
+			}()
+		}
+		finish = func() {
+			ret := make(chan struct{})
+			go func() { dsc.Stop(); close(ret) }()
+			select {
+			case <-ret:
+			case <-time.After(5 * time.Second):
+				b.fail("C16 alone: v1 Stop() did not return within 5s (%s)", desc)
+			}
+			close(stop)
+			cancel()
+		}
+	}
+	cn := startCanary()
+	want := k
+	if want > int(c.H) {
+		want = int(c.H)
+	}
+	deadline := time.Now().Add(3 * time.Second)
+	ok := true
+	for int(atomic.LoadInt64(&delivered)) < want {
+		if time.Now().After(deadline) {
+			if cn.max > 500*time.Millisecond { // the machine was stalled: wait again
+				deadline = time.Now().Add(3 * time.Second)
+				cn.max = 0
+				continue
+			}
+			b.fail("C06 alone: nothing in flight, priority %d alone has %d items available up-front: %d delivered after 3s without a release, %d expected (HandlersQuantity %d) (%s)",
+				P, k, atomic.LoadInt64(&delivered), want, c.H, desc)
+			ok = false
+			break
+		}
+		time.Sleep(200 * time.Microsecond)
+	}
+	time.Sleep(2 * time.Millisecond)
+	if got := int(atomic.LoadInt64(&delivered)); got > int(c.H) {
+		b.fail("C01 alone: %d delivered with nothing released, HandlersQuantity %d (%s)", got, c.H, desc)
+	}
+	// the rest follows as the handlers release
+	released := 0
+	deadline = time.Now().Add(5 * time.Second)
+	for ok && int(atomic.LoadInt64(&delivered)) < k && time.Now().Before(deadline) {
+		if len(held) > 0 {
+			release()
+			released++
+		}
+		time.Sleep(100 * time.Microsecond)
+	}
+	cn.lag()
+	if ok && int(atomic.LoadInt64(&delivered)) < k {
+		b.fail("C06 alone: %d of %d items were delivered although every delivered item was released (%s)", atomic.LoadInt64(&delivered), k, desc)
+	}
+	finish()
+	b.leakProbe("termination after the alone scenario")
+	b.note("alone", desc, before)
 }
